@@ -112,3 +112,84 @@ func VerifHarness_C13_genesis() {
 	okGen, gerr := IsValidGenesisState(spec, st)
 	zzverif.Assert(gerr == nil && okGen == (want.GenesisTime >= spec.MIN_GENESIS_TIME && uint64(active) >= uint64(spec.MIN_GENESIS_ACTIVE_VALIDATOR_COUNT)), "IsValidGenesisState == spec is_valid_genesis_state")
 }
+
+func vGpHash2(a, b common.Root) common.Root {
+	var buf [64]byte
+	copy(buf[:32], a[:])
+	copy(buf[32:], b[:])
+	return common.Root(zzverif.Hash(buf[:]))
+}
+
+// VerifHarness_C13_genesis_proofs: GenesisFromEth1 with signatures and proofs CHECKED (the eth1 path, not the kick-start
+// path): as initialize_beacon_state_from_eth1 prescribes, deposit i is verified against the root of the deposit list
+// deposits[:i+1] - so a list of 2..3 deposits carrying the incremental Merkle proofs (33 nodes: the depth-32 branch of
+// leaf i in the tree of i+1 leaves, then the length mix-in) and valid proofs of possession yields a genesis state with
+// one validator per (distinct) pubkey.
+// Bounds: 2..3 deposits of distinct pubkeys, 32 ETH each; hash and BLS uninterpreted.
+func VerifHarness_C13_genesis_proofs() {
+	zzverif.UseOverrides("c08")
+	spec := common.VTinySpec()
+	n := 2 + zzverif.Choose(2) // the implementation needs at least SLOTS_PER_EPOCH (2) validators
+	bad := zzverif.Choose(3) // 0: all proofs valid; 1: sibling at level 0 of the last deposit wrong; 2: its length mix-in wrong
+	h := tree.GetHashFn()
+	var zero [33]common.Root
+	for l := 1; l < 33; l++ {
+		zero[l] = vGpHash2(zero[l-1], zero[l-1])
+	}
+	deps := make([]common.Deposit, n)
+	var leaves []common.Root
+	for i := 0; i < n; i++ {
+		d := &deps[i]
+		d.Data.Pubkey[0], d.Data.Pubkey[1] = byte(i+1), zzverif.NondetU8()
+		d.Data.WithdrawalCredentials = vRoot1()
+		d.Data.Amount = spec.MAX_EFFECTIVE_BALANCE
+		d.Data.Signature = vSig1()
+		leaves = append(leaves, d.Data.HashTreeRoot(h))
+		dom := common.ComputeDomain(common.DOMAIN_DEPOSIT, spec.GENESIS_FORK_VERSION, common.Root{})
+		msg := common.DepositMessage{Pubkey: d.Data.Pubkey, WithdrawalCredentials: d.Data.WithdrawalCredentials, Amount: d.Data.Amount}
+		sr := common.ComputeSigningRoot(msg.HashTreeRoot(h), dom)
+		zzverif.Assume(zzverif.BLSPubkeyValid(d.Data.Pubkey) && zzverif.BLSSigValid(d.Data.Signature) && zzverif.BLSVerify(d.Data.Pubkey, sr[:], d.Data.Signature))
+		// branch of leaf i in the tree holding leaves[0..i]
+		for l := 0; l < 32; l++ {
+			d.Proof[l] = zero[l]
+		}
+		if i == 1 {
+			d.Proof[0] = leaves[0]
+		}
+		if i == 2 {
+			d.Proof[1] = vGpHash2(leaves[0], leaves[1])
+		}
+		d.Proof[32][0] = byte(i + 1) // length mix-in: i+1 as a little-endian uint256
+	}
+	last := &deps[n-1]
+	switch bad {
+	case 1:
+		last.Proof[0][5] ^= 1
+	case 2:
+		last.Proof[32][0] ^= 3
+	}
+	blockHash := vRoot1()
+	zzverif.Reach("genesis-proofs")
+	st, _, err := GenesisFromEth1(spec, blockHash, 1000, deps, false)
+	if bad != 0 {
+		// the corrupted node changes the recomputed root (no hash collision assumed for these two inputs)
+		return
+	}
+	zzverif.Assert(err == nil, "genesis from deposits with valid incremental proofs and signatures succeeds")
+	if err != nil {
+		return
+	}
+	vals, _ := st.Validators()
+	cnt, _ := vals.ValidatorCount()
+	zzverif.Assert(cnt == uint64(n), "every deposit with a valid proof and proof of possession becomes a validator")
+	di, _ := st.Eth1DepositIndex()
+	zzverif.Assert(uint64(di) == uint64(n), "eth1_deposit_index counts the processed deposits")
+	e1, _ := st.Eth1Data()
+	zzverif.Assert(uint64(e1.DepositCount) == uint64(n), "eth1_data.deposit_count is the number of deposits")
+	for i := 0; i < n; i++ {
+		v, _ := vals.Validator(common.ValidatorIndex(i))
+		pk, _ := v.Pubkey()
+		ae, _ := v.ActivationEpoch()
+		zzverif.Assert(pk == deps[i].Data.Pubkey && ae == 0, "validator i is deposit i's key, active from genesis with a full deposit")
+	}
+}
